@@ -598,6 +598,28 @@ def delitem(eng, base, idx):
     if isinstance(base, PDict) and base.items is not None:
         base.items.pop(idx)
         return
+    if isinstance(base, PList) and not isinstance(idx, slice) and not hasattr(base, "__pyvc_getitem__"):
+        # del lst[i]: IndexError outside -n..n-1, otherwise the entries behind position i move up by one (same objects, one fewer)
+        check_frame(eng, base)
+        if base.items is not None:
+            if isinstance(idx, int) and not isinstance(idx, bool):
+                try:
+                    del base.items[idx]
+                except IndexError:
+                    raise ProgExc(IndexError, "list assignment index out of range")
+                return
+            raise Unsupported("del lst[i] with a symbolic index on a concrete list")
+        iz = norm_index(eng, idx, base.n, "list assignment index")
+        eng.assumptions.add("list-model: del lst[i] on a list of symbolic length: entries before i stay, entry j >= i becomes the old entry j+1, the length drops by one")
+        j = z3.Int(fresh_name("dj"))
+        cols = []
+        for c in base.cols:
+            d = z3.Const(fresh_name(f"{base.name}_del"), c.sort())
+            eng.assume(z3.ForAll([j], z3.Select(d, j) == z3.If(j < iz, z3.Select(c, j), z3.Select(c, j + 1)), patterns=[z3.Select(d, j)]))
+            cols.append(d)
+        base.cols = cols
+        base.n = z3.simplify(zint(base.n) - 1)
+        return
     raise Unsupported("del on this container")
 
 
@@ -695,7 +717,12 @@ def _m_pop(eng, recv, args, kwargs):
         except IndexError:
             raise ProgExc(IndexError, "pop from empty list")
     if args:
-        raise Unsupported("pop(i) on a symbolic list")
+        if len(args) != 1 or isinstance(recv, DictListRef):
+            raise Unsupported("pop(i) on a symbolic list")
+        # lst.pop(i) = lst[i], then del lst[i] (both raise IndexError outside the range)
+        v = getitem(eng, recv, args[0])
+        delitem(eng, recv, args[0])
+        return v
     nz = zint(recv.n)
     if not eng.branch(eng.sbool(nz > 0)):
         raise ProgExc(IndexError, "pop from empty list")
